@@ -487,12 +487,9 @@ func runWorld(run *rep.Run, rng *rand.Rand, eng, bal string, id int) {
 		if T != S+F {
 			run.Violation("C19/endpoint/total-not-success-plus-failed", fmt.Sprintf("%s: total %d != successes %d + failures %d", n, T, S, F), w2)
 		}
-		// the olla engine also records a failure when it *skips* an endpoint whose breaker is
-		// open (nothing reaches the backend); such skips are not attempts and cannot be counted
-		// from outside, so on that engine only "every attempt at least once" is decidable
-		if eng == "olla" && T > seen && T <= seen+ty.sent {
-			run.Count("olla_recorded_minus_seen_attributed_to_breaker_skips", T-seen)
-		} else if T != seen {
+		// (an endpoint the olla engine skips because its circuit is open is not attempted: a skip
+		// that is booked as a failed request shows here as "recorded more than once")
+		if T != seen {
 			k := "attempt-not-recorded"
 			if T > seen {
 				k = "attempt-recorded-more-than-once"
@@ -691,9 +688,17 @@ func breakerSkipGauges(run *rep.Run) {
 			f.Close()
 			continue
 		}
+		url0 := f.W.EndpointByName("b0").URLString
+		before0 := f.W.Stats().GetEndpointStats()[url0]
+		seen0 := 0
 		skipped, served := 0, 0
 		for i := 0; i < 8; i++ {
 			c := f.Run(hc, fmt.Sprintf("bs%dr%d", bi, i), []fw.Fault{{Kind: "ok"}, {Kind: "ok"}}, "", nil, nil)
+			for _, a := range c.Attempts {
+				if a.Backend == 0 {
+					seen0++
+				}
+			}
 			on0 := false
 			for _, a := range c.Attempts {
 				if a.Backend == 0 {
@@ -720,6 +725,12 @@ func breakerSkipGauges(run *rep.Run) {
 			if !zero {
 				time.Sleep(10 * time.Millisecond)
 			}
+		}
+		// a skipped endpoint was not attempted: its request counters move only by what it was sent
+		after0 := f.W.Stats().GetEndpointStats()[url0]
+		if rec := after0.TotalRequests - before0.TotalRequests; rec != int64(seen0) {
+			run.Violation("C19/endpoint/attempt-recorded-more-than-once/olla/circuit-open-skip", fmt.Sprintf("while b0's engine circuit was open it was contacted %d times by %d requests, yet %d requests (%d failed) were recorded for it", seen0, 8, rec, after0.FailedRequests-before0.FailedRequests),
+				map[string]any{"balancer": bal, "contacted": seen0, "recorded": rec})
 		}
 		run.Count("breaker_skip_gauge_checks", 1)
 		run.Eval(fmt.Sprintf("breaker-skip-gauges/%s", bal))
